@@ -33,6 +33,7 @@ type State struct {
 	dirty    []dirtyRec        // heap class prefixes havocked selectively, with the epoch of the havoc
 	fdepth   int               // number of forks taken on this path
 	choices  string            // branch choices taken so far ("0"/"1" per fork)
+	lastRes  map[string]Val    // first result of the last returned call, by source-level callee name (ghost lastresult)
 }
 
 type dirtyRec struct {
@@ -83,6 +84,12 @@ func (s *State) clone() *State {
 	n.calls = make(map[string]int, len(s.calls))
 	for k, v := range s.calls {
 		n.calls[k] = v
+	}
+	if len(s.lastRes) > 0 {
+		n.lastRes = make(map[string]Val, len(s.lastRes))
+		for k, v := range s.lastRes {
+			n.lastRes[k] = v
+		}
 	}
 	return n
 }
